@@ -62,3 +62,6 @@ SPEC = dict(
         "conjugate is the identity on Integer/Rational",
     ],
 )
+
+SPEC.setdefault("level_note", "Trusted: Lean kernel; the correspondence harness and its dense rational oracle. csr_matmat is covered by correspondence/oracle and two refutation "
+    "witnesses only (known finding C25-matmat-unsorted); jacobian only through its push loop; entries restricted to Integer/Rational, sizes <= 8x8.")
